@@ -462,9 +462,67 @@ def realise(V, rec, tmpdir):
             d.addPictureFromFile(fn)
     if rec.get('thumbnail'):
         d.addThumbnail(dec_bytes(rec['thumbnail']))
+    realise_extreme(V, rec.get('extreme'), d, top)
     for o in rec['objects']:
         d.addObject(realise(V, o, tmpdir))
     return d
+
+
+def realise_extreme(V, ex, d, top):
+    """corners of "for all documents": a chain of `depth` nested elements with an automatic style referenced ONLY at the
+    deepest level, `wide` sibling paragraphs, one text node of `long` characters (built with loops, through the factories,
+    grammar checks on).  ex = {'kind': 'span'|'list'|'g', 'depth': n, 'wide': n, 'long': n, 'style': name}"""
+    if not ex:
+        return
+    from odf import text, draw, style
+    nm = ex['style']
+    st = style.Style(name=nm, family=u'text')
+    st.addElement(style.TextProperties(fontweight=u'bold'))
+    d.automaticstyles.addElement(st)
+    def leaf():
+        s = text.Span(stylename=nm)
+        s.addText(u'deepest')
+        return s
+    host = top
+    if top.qname[1] not in ('text',):
+        # a place that takes paragraphs / shapes in the other document classes
+        if top.qname[1] in ('drawing', 'presentation'):
+            pg = draw.Page(name=u'deep page', masterpagename=u'Standard'); top.addElement(pg)
+            fr = draw.Frame(width=u'5cm', height=u'5cm'); pg.addElement(fr)
+            tb = draw.TextBox(); fr.addElement(tb); host = tb
+        else:
+            return
+    if ex.get('depth'):
+        kind = ex['kind']
+        if kind == 'span':
+            p = text.P(); host.addElement(p)
+            cur = p
+            for i in range(ex['depth']):
+                s = text.Span(); cur.addElement(s); s.addText(u'%d' % (i % 10)); cur = s
+            cur.addElement(leaf())
+        elif kind == 'list':
+            cur = host
+            for i in range(ex['depth']):
+                l = text.List(); cur.addElement(l)
+                it = text.ListItem(); l.addElement(it); cur = it
+            p = text.P(); cur.addElement(p); p.addElement(leaf())
+        else:
+            p = text.P(); host.addElement(p)
+            cur = p
+            for i in range(ex['depth']):
+                g = draw.G(); cur.addElement(g); cur = g
+            fr = draw.Frame(width=u'1cm', height=u'1cm'); cur.addElement(fr)
+            tb = draw.TextBox(); fr.addElement(tb)
+            p2 = text.P(); tb.addElement(p2); p2.addElement(leaf())
+    for i in range(ex.get('wide', 0)):
+        p = text.P(); host.addElement(p); p.addText(u'w%d' % i)
+        if i == ex['wide'] - 1:
+            p.addElement(leaf())
+    if ex.get('long'):
+        p = text.P(); host.addElement(p)
+        unit = u'long text with & < > " \' \t and é\U0001F600 '
+        p.addText((unit * (ex['long'] // len(unit) + 1))[:ex['long']])
+        p.addElement(leaf())
 
 
 # ------------------------------------------------------------------------------------------- observation of a real document
@@ -854,6 +912,11 @@ def run(chk, replay=None):
                 'checks ON (children/attributes/text from odf.grammar, values = schema datatype samples the bound converter '
                 'returns unchanged), with meta, settings, common/automatic/master styles, fonts, pictures (5 ways of adding), '
                 'thumbnail and embedded sub-documents (2 levels); non-trivial = at least 8 elements in the body')
+    # the deep documents (130-400 nested elements) need head room for the HARNESS' own recursive walkers (walk, norm,
+    # diff, wire form: several frames per level); the library's own deepest recursion is the style-reference scan
+    # (_stylerefs_of / _parseoneelement: 2 frames per level) and toXml (1 per level), i.e. with Python's default limit of
+    # 1000 frames documents nested deeper than ~450 levels cannot be saved at all: 400 is the bound used here
+    sys.setrecursionlimit(max(sys.getrecursionlimit(), 20000))
     V = Vocabulary()
     tmpdir = tempfile.mkdtemp(prefix='c04-')
     try:
@@ -892,8 +955,21 @@ def run(chk, replay=None):
         n = 250 if chk.tier == 'quick' else 3000
         for i in range(n):
             # document 3 (and every 100th) embeds 10-12 sub-documents: folder numbers with two digits
-            rec = G.document(cls=DOC_CLASSES[i % len(DOC_CLASSES)] if i < 2 * len(DOC_CLASSES) else None,
+            extreme = None
+            if i in (5, 6, 7, 8, 9) or i % 97 == 96:
+                # corners: DEEP (130-400 nested elements), WIDE (thousands of siblings), one LONG text node (> 64 KiB);
+                # an automatic style is referenced only at the far end
+                k = i if i < 10 else chk.rng.randint(5, 9)
+                extreme = {'style': u'DeepOnly%d' % i, 'kind': ['span', 'list', 'g', 'span', 'span'][k - 5],
+                           'depth': chk.rng.randint(130, 400) if k in (5, 6, 7, 9) else 0,
+                           'wide': chk.rng.randint(1500, 3000) if k == 8 else 0,
+                           'long': chk.rng.randint(70000, 150000) if k in (8, 5) else 0}
+                chk.count('extreme:' + ('deep-' + extreme['kind'] if extreme['depth'] else 'wide+long'))
+            rec = G.document(cls=(('Drawing' if i == 9 else 'Text') if extreme else
+                                  DOC_CLASSES[i % len(DOC_CLASSES)] if i < 2 * len(DOC_CLASSES) else None),
                              many_objects=chk.rng.randint(10, 12) if i % 100 == 3 else 0)
+            if extreme:
+                rec['extreme'] = extreme
             rec = json.loads(json.dumps(rec))
             try:
                 rep, raw1, d2, s1 = run_recipe(V, rec, tmpdir)
